@@ -4,7 +4,7 @@ the block is dead code)."""
 from __future__ import annotations
 
 import ast
-from typing import Dict, List, Optional
+from typing import Any, Dict, List, Optional
 
 from .base import *  # noqa: F401,F403
 from . import tables
@@ -12,7 +12,7 @@ from .. import boolfn
 
 TT = "mosaik.tiered_time.TieredTime"
 TI = "mosaik.tiered_time.TieredInterval"
-MIN_INSTANCES = 5
+MIN_INSTANCES = 7
 
 
 def run(ctx: Ctx) -> Collector:
@@ -21,6 +21,7 @@ def run(ctx: Ctx) -> Collector:
     _class_shape(ctx, c, TI)
     _tt_lt(ctx, c)
     _ti_lt(ctx, c)
+    _additions(ctx, c)
     _contradictions(ctx, c)
     return c
 
@@ -84,6 +85,10 @@ def _tt_lt(ctx: Ctx, c: Collector) -> None:
 
 
 def _ti_lt(ctx: Ctx, c: Collector) -> None:
+    """The scan loop of TieredInterval.__lt__ is read as a finite transducer: its input letters are
+    (relation of the two tiers, kind of the tier for each operand), its state the Boolean locals
+    carried from one iteration to the next.  The product with the specification automaton is
+    explored exhaustively; every reachable (state, letter) must give the specified outcome."""
     qn = TI + ".__lt__"
     fi = ctx.func(qn)
     s = ctx.summ(qn)
@@ -91,7 +96,7 @@ def _ti_lt(ctx: Ctx, c: Collector) -> None:
     loc = fi.loc
     # the scan loop: iteration over zip(self.tiers, other.tiers), possibly enumerate()d
     zp = call(T.glob("zip"), ("attr", me, "tiers"), ("attr", other, "tiers"))
-    sv = ov = None
+    sv = ov = iv = None
     in_loop = [e for e in s.events if e.iters]
     for e in in_loop:
         it = e.iters[0]
@@ -100,72 +105,278 @@ def _ti_lt(ctx: Ctx, c: Collector) -> None:
             sv, ov = it[1][1]
         elif src == call(T.glob("enumerate"), zp) and it[1][0] == "tuple" and len(it[1][1]) == 2 and it[1][1][1][0] == "tuple":
             sv, ov = it[1][1][1][1]
+            iv = it[1][1][0]
         break
     if sv is None:
         c.unk("ti-lt", qn, "lexicographic scan", "no loop over zip(self.tiers, other.tiers) found", loc)
         return
     LT = ("cmp", "<", sv, ov)
     GT = ("cmp", "<", ov, sv)
-    items = []
-    for e in s.events:
-        if not e.iters:
-            continue
-        if e.kind == "return":
-            items.append((f"ret:{T.show(e.term)}", e.guards))
-        elif e.kind == "assert" and e.term[1] == T.const(False):
-            items.append(("abort", e.guards))
-        elif e.kind == "assert":
-            items.append(("abort", e.guards + (("g", e.term[1], False),)))
-        elif e.kind == "raise":
-            items.append(("abort", e.guards))
-    pr: List[str] = []
-    # the loop index (for the incomparability flags)
-    iv = None
+    EQ = T.canon_cmp("==", sv, ov)
+    sc, oc = ("attr", me, "cutoff"), ("attr", other, "cutoff")
+    C_LT, C_GT, C_EQ = ("cmp", "<", sc, oc), ("cmp", "<", oc, sc), T.canon_cmp("==", sc, oc)
+    L1 = ("cmp", "<", iv, sc) if iv is not None else None      # tier i is an "add" tier of self
+    L2 = ("cmp", "<", iv, oc) if iv is not None else None      # tier i is an "add" tier of other
+    # guards outside the loop (length assertions) are not part of the per-tier decision
+    tail = [r for r in s.returns if not r.iters]
+    pre = list(tail[-1].guards) if tail else []
+    for r in tail:
+        pre = [g for g in pre if g in r.guards]
+
+    def own(gs):
+        return [g for g in gs if g not in pre]
+    outcomes = []           # (label, guards) in program order
     for e in in_loop:
-        it = e.iters[0]
-        if T.strip(it[2]) == call(T.glob("enumerate"), zp) and it[1][0] == "tuple":
-            iv = it[1][1][0]
-        break
-    try:
-        # guards outside the loop (length assertions) are not part of the per-tier decision
-        pre = [g for g in (s.events[-1].guards if s.events else ())]
-        items = [(lab, [g for g in gs if g not in pre]) for lab, gs in items]
-        must = [LT, GT]
+        if e.kind == "return":
+            outcomes.append((e.term, own(e.guards)))
+        elif e.kind == "assert" and e.term[1] == T.const(False):
+            outcomes.append(("abort", own(e.guards)))
+        elif e.kind == "assert":
+            outcomes.append(("abort", own(e.guards) + [("g", e.term[1], False)]))
+        elif e.kind == "raise":
+            outcomes.append(("abort", own(e.guards)))
+    # loop-carried state: locals bound inside the loop that are still read as variables
+    # (single-definition locals have been substituted by their value)
+    reads = set()
+    for e in s.events:
+        for part in [e.term] + [g[1] for g in e.guards]:
+            if e.kind == "bind":
+                part = part[2] if part is e.term else part
+            reads |= {x[1] for x in T.subterms((T.strip(part),)) if x[0] == "var"}
+    state_vars = []
+    updates = []            # (var, value term, guards, event)
+    for e in in_loop:
+        if e.kind == "bind" and e.term[1][0] == "var" and e.term[1][1] in reads and e.term[1] not in (sv, ov, iv):
+            if e.term[1][1] not in state_vars:
+                state_vars.append(e.term[1][1])
+            updates.append((e.term[1][1], e.term[2], own(e.guards), e))
+    init = {}
+    for v in state_vars:
+        b = [e for e in s.of_kind("bind") if not e.iters and e.term[1] == T.var(v)]
+        if len(b) != 1 or b[0].term[2][0] != "const" or not isinstance(b[0].term[2][1], bool):
+            c.unk("ti-lt", qn, "lexicographic scan", f"loop-carried local `{v}` is not a Boolean flag initialised before the loop", loc)
+            return
+        init[v] = b[0].term[2][1]
+    # a flag that is updated before it is tested in the same iteration is not modelled
+    for v, _, _, ev in updates:
+        pos = s.events.index(ev)
+        for e in s.events[pos + 1:]:
+            if e.iters and e.kind == "test" and T.contains((e.term,), T.var(v)):
+                c.unk("ti-lt", qn, "lexicographic scan", f"flag `{v}` is updated before it is tested within one iteration", loc)
+                return
+
+    REL = {"lt": "self < other", "eq": "equal tiers", "gt": "other < self"}
+    KIND = {"AA": "added by both", "SA": "added by self, replaced by other", "OA": "added by other, replaced by self", "EE": "replaced by both"}
+
+    def assignment(rel, kind, direction, sigma):
+        a = {LT: rel == "lt", GT: rel == "gt", EQ: rel == "eq",
+             C_LT: direction == "OA", C_GT: direction == "SA", C_EQ: direction is None}
         if iv is not None:
-            L1 = ("cmp", "<", iv, ("attr", me, "cutoff"))       # tier i is an "add" tier of self
-            L2 = ("cmp", "<", iv, ("attr", other, "cutoff"))    # tier i is an "add" tier of other
-            must += [L1, L2]
-        for a, fired in tables.rows(items, must):
-            fs = set(fired)
-            if iv is not None:
-                # incomparable exactly when the deciding tier is an add tier of the smaller side's
-                # operand and an ext tier of the other: (s<o, other.cutoff <= i < self.cutoff) or
-                # (o<s, self.cutoff <= i < other.cutoff)
-                inc = (a[LT] and a[L1] and not a[L2]) or (a[GT] and a[L2] and not a[L1])
-                if inc and "abort" not in fs:
-                    pr.append("a pair that differs first in a tier that is an add-tier of one and an ext-tier of the other is ordered instead of being reported incomparable")
-                if not inc and "abort" in fs:
-                    pr.append("comparable delays are reported as incomparable (the add/ext flags of the two operands are mixed up)")
-            if a[LT]:
-                if not fs or not fs <= {"ret:True", "abort"}:
-                    pr.append(f"at a tier with self < other the scan {'continues' if not fs else 'gives ' + ','.join(sorted(fs))} instead of returning True")
-            elif a[GT]:
-                if not fs or not fs <= {"ret:False", "abort"}:
-                    pr.append(f"at a tier with other < self the scan {'continues to the next tier' if not fs else 'gives ' + ','.join(sorted(fs))} instead of returning False: "
-                              "a later tier decides, so a < b and b < a can both hold")
-            else:
-                if fs:
-                    pr.append("at a tier with equal values the scan does not continue")
+            a[L1] = kind in ("AA", "SA")
+            a[L2] = kind in ("AA", "OA")
+        for v, val in sigma.items():
+            a[T.var(v)] = val
+        return a
+
+    def code_step(rel, kind, direction, sigma):
+        a = assignment(rel, kind, direction, sigma)
+        fired = []
+        for lab, gs in outcomes:
+            if boolfn.guards_hold_leaves(gs, a):
+                if lab == "abort":
+                    fired.append("abort")
+                else:
+                    try:
+                        fired.append(bool(boolfn.eval_leaves(lab, a)))
+                    except boolfn.NotBoolean:
+                        fired.append("ret:" + T.show(lab))
+        if fired:
+            return fired[0], None
+        nxt = dict(sigma)
+        for v, val, gs, _ in updates:
+            if boolfn.guards_hold_leaves(gs, a):
+                a2 = dict(a)
+                a2.update({T.var(k): x for k, x in nxt.items()})
+                nxt[v] = bool(boolfn.eval_leaves(val, a2))
+        return None, nxt
+
+    def spec_step(rel, kind, q):
+        if kind == "SA":
+            return {"lt": ("abort", None), "gt": (False, None), "eq": (None, "SG")}[rel]
+        if kind == "OA":
+            return {"gt": ("abort", None), "lt": (True, None), "eq": (None, "OG")}[rel]
+        if rel == "lt":
+            return ("abort" if q == "SG" else True), None
+        if rel == "gt":
+            return ("abort" if q == "OG" else False), None
+        return None, q
+
+    def code_end(direction, sigma):
+        a = assignment("eq", "EE", direction, sigma)
+        for r in tail:
+            if boolfn.guards_hold_leaves(own(r.guards), a):
+                return bool(boolfn.eval_leaves(r.term, a))
+        return None
+
+    pr: List[str] = []
+    explored = 0
+    try:
+        if iv is None and (updates or any(T.contains((g[1],), sc) or T.contains((g[1],), oc) for _, gs in outcomes for g in gs)):
+            raise boolfn.NotBoolean("the tier index is not available (no enumerate) but cutoffs are tested")
+        for direction in (None, "SA", "OA"):
+            start = (0, tuple(sorted(init.items())), "N")
+            seen = {start}
+            todo = [start]
+            while todo:
+                phase, sig, q = todo.pop()
+                sigma = dict(sig)
+                hist = {"N": "", "SG": " after tiers that were equal where self adds and other replaces", "OG": " after tiers that were equal where other adds and self replaces"}[q]
+                # end of the scan (all tiers equal): allowed once the tiers between the cutoffs have been seen
+                if direction is None or phase >= 1:
+                    got = code_end(direction, sigma)
+                    want = q == "OG"
+                    explored += 1
+                    if got is None:
+                        pr.append("nothing is returned after the scan")
+                    elif got != want and want:
+                        pr.append("delays with equal tiers whose cutoffs differ are neither <, == nor >: the one that replaces the tiers between the cutoffs is the smaller one (it never arrives later), so the fall-through must return True for it")
+                    elif got != want:
+                        pr.append("equal intervals do not compare as 'not less' (fall-through must return False)" if q == "N" else
+                                  "the fall-through orders delays with equal tiers the wrong way round: the delay that adds between the cutoffs never arrives earlier")
+                kinds = []
+                if phase == 0:
+                    kinds.append(("AA", 0))
+                if direction is not None and phase <= 1:
+                    kinds.append((direction, 1))
+                if direction is None or phase >= 1:
+                    kinds.append(("EE", 2))
+                if iv is None:
+                    kinds = [("AA", 0)]
+                for kind, nphase in kinds:
+                    for rel in ("lt", "eq", "gt"):
+                        explored += 1
+                        got, nsig = code_step(rel, kind, direction, sigma)
+                        want, nq = spec_step(rel, kind, q)
+                        if got != want:
+                            where = f"at a tier with {REL[rel]} ({KIND[kind]}){hist}"
+                            if want == "abort" and kind in ("SA", "OA"):
+                                pr.append("a pair that differs first in a tier that is an add-tier of one and an ext-tier of the other is ordered instead of being reported incomparable")
+                            elif want == "abort":
+                                pr.append(f"{where} the scan {'continues' if got is None else 'returns ' + str(got)} instead of reporting the pair incomparable: "
+                                          "the adding delay arrives later whenever the departure time's tier is > 0, so a later tier must not make it the smaller one")
+                            elif got == "abort":
+                                pr.append(f"comparable delays are reported as incomparable ({where}; the add/ext flags of the two operands are mixed up)")
+                            elif want is None:
+                                pr.append("at a tier with equal values the scan does not continue")
+                            elif rel == "lt":
+                                pr.append(f"at a tier with self < other the scan {'continues' if got is None else 'gives ' + str(got)} instead of returning True")
+                            else:
+                                pr.append(f"at a tier with other < self the scan {'continues to the next tier' if got is None else 'gives ' + str(got)} instead of returning False: "
+                                          "a later tier decides, so a < b and b < a can both hold")
+                            continue
+                        if got is None:
+                            nxt = (nphase, tuple(sorted(nsig.items())), nq)
+                            if nxt not in seen:
+                                seen.add(nxt)
+                                todo.append(nxt)
     except boolfn.NotBoolean as ex:
         c.unk("ti-lt", qn, "lexicographic scan", f"condition not understood: {ex}", loc)
         return
-    tail = [r for r in s.returns if not r.iters]
-    if not tail or tail[-1].term != T.const(False):
-        pr.append("equal intervals do not compare as 'not less' (fall-through must return False)")
+    c.info["ti_lt_product_steps"] = explored
     lens = T.canon_cmp("==", call(T.glob("len"), me), call(T.glob("len"), other))
-    if not any(e.term[1] == lens for e in s.of_kind("assert")):
+    lens2 = T.canon_cmp("==", call(T.glob("len"), ("attr", me, "tiers")), call(T.glob("len"), ("attr", other, "tiers")))
+    if not any(e.term[1] in (lens, lens2) for e in s.of_kind("assert")):
         pr.append("no assertion that both intervals have the same length")
-    c.add("ti-lt", qn, "lexicographic scan", VIOLATED if pr else DISCHARGED, "; ".join(sorted(set(pr))), loc)
+    c.add("ti-lt", qn, "lexicographic scan", VIOLATED if pr else DISCHARGED, "; ".join(sorted(set(pr))) if pr else f"product of the scan loop with the order specification: {explored} (state, letter) pairs agree", loc)
+
+
+def _expand_props(ctx: Ctx, cls: str, t: Any, depth: int = 3) -> Any:
+    """Reads of @property members of `cls` (add, ext) replaced by the property's value, so that a
+    dependence on `interval.add` counts as a dependence on tiers and cutoff."""
+    if not isinstance(t, tuple) or depth == 0:
+        return t
+    t = tuple(_expand_props(ctx, cls, x, depth) for x in t)
+    if T.is_term(t) and t[0] == "attr":
+        fi = ctx.prog.functions.get(f"{cls}.{t[2]}")
+        if fi is not None and any(ast.unparse(d) == "property" for d in fi.node.decorator_list):
+            rv = folded_return(summarise(ctx.prog, fi))
+            if rv is not None:
+                return _expand_props(ctx, cls, T.replace(T.strip(rv), {T.var(fi.params[0]): t[1]}), cls and depth - 1)
+    return t
+
+
+def _additions(ctx: Ctx, c: Collector) -> None:
+    """Structural clauses of the two additions (the arithmetic itself is not decided):
+    every way out of TieredTime.__add__ depends on the departure tiers, the delay's tiers and the
+    delay's cutoff (tiers after the cutoff are replaced, so a result that ignores the cutoff keeps
+    stale sub-steps); TieredInterval.__add__ builds a delay with the first operand's pre_length,
+    the smaller cutoff, and tiers depending on both operands' tiers and cutoffs."""
+    from ..flow import inline_calls, uninl
+    # --- time + delay
+    qn = TT + ".__add__"
+    fi = ctx.func(qn)
+    s = ctx.summ(qn)
+    me, iv = T.var(fi.params[0]), T.var(fi.params[1])
+    pr: List[str] = []
+    if not s.returns:
+        pr.append("nothing is returned")
+    asserted = [T.guard_term(g) for g in (s.returns[0].guards if s.returns else ()) if all(g in r.guards for r in s.returns)]
+    for r in s.returns:
+        own = [g for g in r.guards if T.guard_term(g) not in asserted]
+        parts = (_expand_props(ctx, TI, uninl(inline_calls(ctx.prog, fi.module.name, T.strip(r.term)))),) + tuple(_expand_props(ctx, TI, T.strip(g[1])) for g in own)
+        need = {"the departure time's tiers": (me, "tiers"), "the delay's tiers": (iv, "tiers"), "the delay's cutoff": (iv, "cutoff")}
+        reads = set(T.field_reads(parts))
+        if any(x == me for x in T.subterms((T.strip(r.term),))) and not T.contains((r.term,), ("attr", me, "tiers")):
+            reads.add((me, "tiers"))          # returning / passing `self` whole carries its tiers
+        missing = [k for k, v in need.items() if v not in reads]
+        if missing:
+            cond = " and ".join(T.show_guard(g) for g in own) or "always"
+            pr.append(f"the result {T.show(r.term)[:60]} (returned when {cond[:120]}) does not depend on {', '.join(missing)}"
+                      + (": tiers after the cutoff must be replaced by the delay's, so a result that ignores the cutoff keeps stale lower tiers" if "the delay's cutoff" in missing else ""))
+    c.add("tt-add", qn, "every result depends on departure tiers, delay tiers and cutoff", VIOLATED if pr else DISCHARGED, "; ".join(pr), fi.loc)
+    # --- delay + delay
+    qn = TI + ".__add__"
+    fi = ctx.func(qn)
+    s = ctx.summ(qn)
+    me, other = T.var(fi.params[0]), T.var(fi.params[1])
+    sc, oc = ("attr", me, "cutoff"), ("attr", other, "cutoff")
+    C_LT, C_GT, C_EQ = ("cmp", "<", sc, oc), ("cmp", "<", oc, sc), T.canon_cmp("==", sc, oc)
+    pr = []
+    if not s.returns:
+        pr.append("nothing is returned")
+    for r in s.returns:
+        v = T.strip(r.term)
+        if not (v[0] == "call" and v[1] == T.glob(TI)):
+            pr.append(f"returns {T.show(v)[:60]}, not a new TieredInterval")
+            continue
+        kw = dict(v[3])
+        if kw.get("pre_length") != ("attr", me, "pre_length"):
+            pr.append(f"the sum's pre_length is {T.show(kw.get('pre_length', T.NONE))} instead of self.pre_length (the sum applies to the times the first delay applies to)")
+        cut = kw.get("cutoff")
+        if cut is None:
+            pr.append("the sum's cutoff is not given (it defaults to the number of tiers)")
+        else:
+            for row, want in (({C_LT: True, C_GT: False, C_EQ: False}, (sc,)), ({C_LT: False, C_GT: True, C_EQ: False}, (oc,)), ({C_LT: False, C_GT: False, C_EQ: True}, (sc, oc))):
+                try:
+                    got = boolfn.resolve_phi(cut, row)
+                except boolfn.NotBoolean:
+                    got = cut
+                got = T.strip(got)
+                if got[0] == "agg" and got[1] == "min" and {x[1] for x in got[2][1]} == {sc, oc}:
+                    continue
+                if got[0] == "agg" and got[1] == "max" and {x[1] for x in got[2][1]} == {sc, oc}:
+                    pr.append("the sum's cutoff is the larger of the two cutoffs: tiers that one of the delays replaces would be added to")
+                    break
+                if got not in want:
+                    pr.append(f"the sum's cutoff is {T.show(got)[:60]} when {'self.cutoff < other.cutoff' if row[C_LT] else 'other.cutoff < self.cutoff' if row[C_GT] else 'the cutoffs are equal'} (it must be the smaller cutoff)")
+                    break
+        parts = (_expand_props(ctx, TI, uninl(inline_calls(ctx.prog, fi.module.name, v[2]))),)
+        reads = set(T.field_reads(parts))
+        need = {"self.tiers": (me, "tiers"), "other.tiers": (other, "tiers"), "self.cutoff": (me, "cutoff"), "other.cutoff": (other, "cutoff")}
+        missing = [k for k, x in need.items() if x not in reads]
+        if missing:
+            pr.append(f"the sum's tiers do not depend on {', '.join(missing)}")
+    c.add("ti-add", qn, "sum has self.pre_length, the smaller cutoff, tiers from both operands", VIOLATED if pr else DISCHARGED, "; ".join(sorted(set(pr))), fi.loc)
 
 
 def _terminates(body: List[ast.stmt]) -> bool:
